@@ -222,6 +222,50 @@ Definition final_hist (o : outcome) : hist :=
 (* what the user reads after run(): optimiser.converged on the final history *)
 Definition reported (o : outcome) : result bool := converged (final_hist o).
 
-(* run: history after _initialise_run holds the start point with its gradient; fuel = maxiter *)
-Definition run (c0 : entry) : outcome := loop maxiter [evalg c0].
+(* run: after _initialise_run the history holds the start point with its gradient, on top of whatever the
+   constructor put there: Optimiser.__init__ (base.py:88-90) appends the documented `coords=` argument, so
+   pre = [] (default) or [user coordinates, not evaluated].  fuel = maxiter *)
+Definition run_with (pre : hist) (c0 : entry) : outcome := loop maxiter (evalg c0 :: pre).
+Definition run (c0 : entry) : outcome := run_with [] c0.
+
+(* The species object next to the history: only _update_gradient_and_energy (base.py:225-263) writes it — the
+   coordinates, energy and gradient of the entry it evaluates (snap); callback, _step, logging and the limit
+   test leave it alone.  Same translated loop body, on pairs. *)
+Variable Sp : Type.
+Variable snap : entry -> Sp.
+Definition st := (hist * Sp)%type.
+Definition op_callback2 (x : st) : st := (op_callback (fst x), snd x).
+Definition op_step2 (x : st) : st := (op_step (fst x), snd x).
+Definition op_update2 (x : st) : st :=
+  let h' := op_update (fst x) in (h', match h' with c :: _ => snap c | [] => snd x end).
+Definition op_log2 (x : st) : st := x.
+Definition exceeded_now2 (x : st) : bool := exceeded_now (fst x).
+Fixpoint loop2 (fuel : nat) (x : st) : st :=
+  match converged (fst x) with
+  | Ok false =>
+      match fuel with
+      | O => x
+      | S f =>
+          let xb := loop_body op_callback2 op_step2 op_update2 op_log2 exceeded_now2 x in
+          if snd xb then fst xb else loop2 f (fst xb)
+      end
+  | _ => x
+  end.
 End Loop.
+
+(* ------------------------------------------------------------------ the loop on concrete points *)
+(* history entries carrying what conv_params and the constraint counters read: the point (energy, Cartesian
+   coordinates, projected gradient) and one deviation per constrained primitive *)
+Record cpoint := mkCP { cp_pt : point; cp_deltas : list Qc }.
+Section Concrete.
+Variable sqrtf : Qc -> Qc.
+Definition concrete_conv (h : list cpoint) : result params :=
+  match h with
+  | l :: k :: _ => conv_params_of sqrtf (cp_pt l) (Some (cp_pt k))
+  | [l] => conv_params_of sqrtf (cp_pt l) None
+  | [] => AssertionError
+  end.
+Definition concrete_converged (tol : params) (h : list cpoint) : result bool :=
+  converged cpoint concrete_conv (fun c => n_constraints_of (cp_deltas c))
+            (fun c => n_satisfied_of (cp_deltas c)) false tol h.
+End Concrete.
